@@ -22,22 +22,39 @@ reg('C06', engine='h_spaces',
     rule='one case = one freshly built space of the zoo (kind = case index mod 23, 5 of 23 slots are random nested weighted '
          'compounds; parameters random) and 300-2000 generated in-bounds triples (a,b,c) in a random relation (independent, '
          'coincident, nearly coincident, seam/corner, antipodal, from the samplers; c independent / collinear / near a / near b / '
-         'far) plus one clearly separated pair for strict positivity; all 7 directed distances evaluated; non-trivial = >= 50 '
-         'triples evaluated; distinct = distinct (space signature, seed) hash',
+         'far) plus one clearly separated pair for strict positivity, one antipodal-identification pair (quaternions negated exactly) and '
+         'the library-produced pairs interpolate(a,b,1)~b, interpolate(a,b,0)~a for "distance 0 => equalStates"; all 7 directed distances '
+         'evaluated; second phase (spaces with a RealVector/Time/Discrete component or a weighted compound): after setup() the bounds of a '
+         'component are enlarged x3..10 or a subspace weight is raised directly on the component, optionally setup() again, and 20-300 more '
+         'triples (corner-heavy) are checked against the live extent / weighted sum; non-trivial = >= 50 triples evaluated; distinct = '
+         'distinct (space signature, seed) hash',
     floors={'quick': dict({'c06_triples': 8000000, 'c06_triangle_checks': 40000000, 'c06_symmetry_checks': 20000000,
                            'c06_extent_checks': 40000000, 'c06_positivity_checks': 8000000, 'c06_compound_sum_checks': 6000000,
                            'c06_pairs_seam_or_corner': 1500000, 'c06_pairs_antipodal': 1200000, 'c06_pairs_coincident': 500000,
                            'c06_pairs_nearly_coincident': 800000, 'c06_triples_collinear': 1500000, 'c06_pairs_from_samplers': 700000,
-                           'c06_compound_height_3': 300, 'c06_compound_with_zero_weight': 300},
+                           'c06_compound_height_3': 300, 'c06_compound_with_zero_weight': 300,
+                           # representation-equivalent / zero-distance pairs (q vs -q, library-produced pairs)
+                           'c06_antipodal_identification_checks': 2500000, 'c06_zero_distance_leaf_pairs_examined': 60000000,
+                           'c06_library_produced_pairs_checked': 25000000,
+                           # re-parameterisation history phase
+                           'c06_history_cases': 5000, 'c06_history_triples': 700000, 'c06_history_extent_checks': 3500000,
+                           'c06_history_cases_bounds_enlarged': 4000, 'c06_history_cases_weight_raised': 1000,
+                           'c06_history_cases_no_second_setup': 3000, 'c06_history_cases_wrapper_root': 200,
+                           'c06_history_cases_compound_root': 1500, 'c06_history_cases_target_under_wrapper_no_second_setup': 200},
                           **_per_kind('c06_cases_', 250)),
-            'thorough': dict({'c06_triples': 40000000, 'c06_triangle_checks': 200000000, 'c06_compound_sum_checks': 30000000},
+            'thorough': dict({'c06_triples': 40000000, 'c06_triangle_checks': 200000000, 'c06_compound_sum_checks': 30000000,
+                              'c06_antipodal_identification_checks': 12000000, 'c06_history_triples': 3500000,
+                              'c06_history_cases_target_under_wrapper_no_second_setup': 1000, 'c06_history_cases_weight_raised': 5000},
                              **_per_kind('c06_cases_', 1500))},
     level_text='d>=0, d(x,x)=0, d>0 on clearly separated pairs, d<=getMaximumExtent(), symmetry where claimed, triangle inequality where '
                'isMetricSpace() is claimed, compound distance == weighted sum recomputed from the components: held on every generated '
                'triple of every generated space of the zoo (adversarial seam / antipodal / coincident / collinear inputs included)',
     technique='runtime monitoring: closed-form metric oracles over generated spaces and adversarial states under ASan+UBSan',
     assumptions=_ASSUME + ['strict positivity is decided on pairs displaced by 1e-6..1e-2 of the coordinate range in a positive-weight '
-                           'component (DESIGN 2.4); 1-ulp seam pairs at distance 0 are only counted',
+                           'component (DESIGN 2.4); "distance exactly 0 => equalStates" is decided leaf by leaf (RealVector, SO2, SO3, Time, '
+                           'Discrete components), SO2 pairs straddling the seam at distance 0 are exempt and only counted',
+                           're-parameterisation history: bounds / weights are changed through the component\'s own setBounds / '
+                           'setSubspaceWeight after setup(); components of Sphere / Mobius / KleinBottle (fixed charts) are not touched',
                            'the extent clause is not applied to spaces containing an unbounded TimeStateSpace (documented placeholder extent 1)'])
 
 reg('C07', engine='h_spaces',
